@@ -56,6 +56,14 @@ def twin_cases():
         for col in COLOURS:
             for boolean, integer in TWINS:
                 out.append((st, col, boolean, integer))
+    # colour numbers given as int and as an equal float (31 == 31.0, same hash); a style switched on by a number that is also a
+    # colour code (bold=31) next to the colour itself
+    for name, num in (("fg", 31), ("bg", 44), ("fg", 37), ("bg", 40)):
+        out.append((name, None, num, float(num)))
+        out.append((name, ("bold", True), num, float(num)))
+    for st in ("bold", "underline", "invert"):
+        out.append((st, ("fg", 31), True, 31))
+        out.append((st, ("bg", 44), True, 44))
     return out
 
 
